@@ -33,6 +33,17 @@ def run(ctx):
     rep.rule("C15.R3", "A1 never overwrite: import unreachable from failure/mismatch/dirty/blocked edges")
     rep.rule("C15.R4", "A1/A2/A3 fork: wholesale restore, heads from the request, bounded copy, lane rewrite")
     rep.rule("C15.R5", "A6 totality over revalidation states")
+    # overlap revalidation compares WHOLE records: a slot value that keeps only part of a record (an edge's endpoints) judges a
+    # change of the omitted part (its type) "clean" and imports it over the parent's value
+    RSV = SE + "RevalidationSlotValue"
+    rsv = prog.adt(RSV)
+    want_ty = {"Node": "warp_core::record::NodeRecord", "Edge": "warp_core::record::EdgeRecord", "Attachment": "warp_core::attachment::AttachmentValue"}
+    for v_ in rsv["variants"]:
+        if v_["n"] in want_ty:
+            tys_ = " ".join(f_["ty"] for f_ in v_["fields"])
+            rep.check(want_ty[v_["n"]] in tys_, "C15.R5", "revalidation-compares-whole-record:%s" % v_["n"], "carries %s" % want_ty[v_["n"]].rsplit("::", 1)[-1],
+                      "RevalidationSlotValue::%s carries %s instead of the whole %s: overlapping writes that differ only in the omitted fields are judged clean and imported" % (
+                          v_["n"], tys_, want_ty[v_["n"]].rsplit("::", 1)[-1]), site=RSV)
     rep.rule("C15.R6", "A4 the divergence / parent-movement footprints are collected from EVERY recorded patch of the lane: collection reads the entry's patch and never its event kind")
     # Settlement decides "may this be imported without revalidation" from the slots the parent touched since the fork.  Every
     # provenance entry that carries a patch moved the parent — local commits and earlier merge imports alike; a collector that
